@@ -17,7 +17,7 @@ GEN = {"quick": dict(Grid1=4, MaxN1=4, Grid2=2, MaxN2=3, MaxK=3, MaxB=3, DeepN=0
 # sampling of the enumerated product (the complete sub-domain n <= FULL_N is always kept)
 FULL_N = {"quick": 2, "thorough": 3}
 SAMPLE = {"quick": {("traj", 1): 1000, ("traj", 2): 1000, ("restart", 1): 300, ("restart", 2): 250},
-          "thorough": {("traj", 1): 6000, ("traj", 2): 6000, ("restart", 1): 2500, ("restart", 2): 2500}}
+          "thorough": {("traj", 1): 5000, ("traj", 2): 5000, ("restart", 1): 2500, ("restart", 2): 2500}}
 TRACE_CONST = dict(MaxN1=0, Grid1=0, MaxN2=0, Grid2=0, MaxK=0, MaxB=0)
 LAYOUTS = ["owned", "view", "revf", "revr", "revb", "forder", "row2", "col2"]
 VARIANTS = [("f64", "l2", "owned"), ("f64", "l2", "view"), ("f64", "lp3", "owned"), ("f64", "l2", "owned"),
